@@ -11,6 +11,7 @@ package mocker
 // one observation per op, joined by ';'.
 
 import (
+	"crypto/ecdh"
 	"fmt"
 	"os"
 	"reflect"
@@ -21,12 +22,14 @@ import (
 	"sync"
 	"testing"
 	"time"
+	"unsafe"
 
 	"github.com/tencent/goom/internal/hack"
 	"github.com/tencent/goom/internal/zzverif/vh"
 )
 
 type c07Type struct {
+	sigs  map[string]int // per history, from the T: token
 	rt    reflect.Type
 	nvar  int
 	ptr   func(slot int) interface{}
@@ -85,19 +88,19 @@ func c07newFin(k int) *c07Fin {
 //go:noinline
 func c07cb0(k int) func(*IContext, int) int {
 	f := c07newFin(k)
-	return func(_ *IContext, x int) int { return f.k*100000 + x*10 }
+	return func(c *IContext, x int) int { c.Data = f.k; return c.Data.(int)*100000 + x*10 }
 }
 
 //go:noinline
 func c07cb1(k int) func(*IContext, int, string) int {
 	f := c07newFin(k)
-	return func(_ *IContext, x int, s string) int { return f.k*100000 + x*10 + len(s) }
+	return func(c *IContext, x int, s string) int { c.Data = s; return f.k*100000 + x*10 + len(c.Data.(string)) }
 }
 
 //go:noinline
 func c07cb2(k int) func(*IContext) string {
 	f := c07newFin(k)
-	return func(_ *IContext) string { return "s" + strconv.Itoa(f.k) }
+	return func(c *IContext) string { c.Data = f; return "s" + strconv.Itoa(c.Data.(*c07Fin).k) }
 }
 
 // churn objects live in the same (pointer-carrying) size classes as closures (16 B), reflect.makeFuncImpl (48 B) and
@@ -187,18 +190,60 @@ func c07catch(f func() string) (res string) {
 	return f()
 }
 
-func c07sig(t *c07Type, name string) int {
-	m, ok := t.rt.MethodByName(name)
-	if !ok {
-		return 0
-	}
+// c07sig: signature class of the own-package (or exported) method `name` as declared in the history's T: token —
+// the callback a test author writes for the method he can call.
+func c07sig(t *c07Type, name string) int { return t.sigs[name] }
+
+// c07rsig: signature class of a method as reflect sees it (9 = not one of the three classes the probe can call)
+func c07rsig(m reflect.Method) int {
+	ft := m.Type
+	isInt := func(t reflect.Type) bool { return t.Kind() == reflect.Int }
 	switch {
-	case m.Type.NumIn() == 0:
-		return 2
-	case m.Type.NumIn() == 2:
+	case ft.NumIn() == 1 && ft.NumOut() == 1 && isInt(ft.In(0)) && isInt(ft.Out(0)):
+		return 0
+	case ft.NumIn() == 2 && ft.NumOut() == 1 && isInt(ft.In(0)) && ft.In(1).Kind() == reflect.String && isInt(ft.Out(0)):
 		return 1
+	case ft.NumIn() == 0 && ft.NumOut() == 1 && ft.Out(0).Kind() == reflect.String:
+		return 2
 	}
-	return 0
+	return 9
+}
+
+// c07qname: method id as the model writes it: name, plus @pkgpath for an unexported method of another package
+func c07qname(m reflect.Method) string {
+	if m.PkgPath != "" && m.PkgPath != "github.com/tencent/goom" {
+		return m.Name + "@" + m.PkgPath
+	}
+	return m.Name
+}
+
+// a hand-written type for finding F27: the embedded crypto/ecdh.Curve brings an unexported method `ecdh` of another package
+type c07Dup interface {
+	ecdh.Curve
+	ecdh(x int) int
+	Zz(x int) int
+}
+
+var c07VDup [4]c07Dup
+
+func init() {
+	c07Types[7000] = &c07Type{
+		rt: reflect.TypeOf((*c07Dup)(nil)).Elem(), nvar: 4,
+		ptr:   func(s int) interface{} { return &c07VDup[s] },
+		set:   func(s, id int) { c07VDup[s] = nil },
+		words: func(s int) [2]uintptr { return *(*[2]uintptr)(unsafe.Pointer(&c07VDup[s])) },
+		impl:  func(s int) int { return 0 },
+		call: func(s int, name string, x int) string {
+			v := c07VDup[s]
+			switch name {
+			case "ecdh":
+				return c07ri(v.ecdh(x))
+			case "Zz":
+				return c07ri(v.Zz(x))
+			}
+			return "no-such-method"
+		},
+	}
 }
 
 // callbacks that keep *IContext first but do not fit the method (wrong count / wrong slot size)
@@ -276,7 +321,7 @@ func c07mock(h *CachedInterfaceMocker, v c07Var, kind string, fits bool, name st
 func c07methods(t *c07Type) []string {
 	var ns []string
 	for i := 0; i < t.rt.NumMethod(); i++ {
-		ns = append(ns, t.rt.Method(i).Name)
+		ns = append(ns, c07qname(t.rt.Method(i)))
 	}
 	return ns
 }
@@ -294,6 +339,7 @@ func c07run(toks []string) string {
 	c07epoch++
 	c07mu.Unlock()
 	defer func() { // leave no mock behind for the next history
+		runtime.KeepAlive(handles) // what the test holds stays a GC root for the whole history (matches the model's roots)
 		for _, b := range builders {
 			if b != nil {
 				b.Reset()
@@ -315,20 +361,24 @@ func c07run(toks []string) string {
 			want := map[string]int{}
 			if f[2] != "" {
 				for _, d := range strings.Split(f[2], ",") {
-					p := strings.Split(d, "/")
-					s, _ := strconv.Atoi(p[1])
-					want[p[0]] = s
+					cut := strings.LastIndex(d, "/")
+					if cut < 0 {
+						return "bad-op"
+					}
+					sg, _ := strconv.Atoi(d[cut+1:])
+					want[d[:cut]] = sg
 				}
 			}
-			got := c07methods(t)
-			if len(got) != len(want) {
+			if t.rt.NumMethod() != len(want) {
 				return "type-mismatch"
 			}
-			for _, n := range got {
-				if s, ok := want[n]; !ok || s != c07sig(t, n) {
+			for i := 0; i < t.rt.NumMethod(); i++ {
+				m := t.rt.Method(i)
+				if sg, ok := want[c07qname(m)]; !ok || sg != c07rsig(m) {
 					return "type-mismatch"
 				}
 			}
+			t.sigs = want
 		case "V":
 			tid, _ := strconv.Atoi(f[1])
 			init, _ := strconv.Atoi(f[2])
@@ -375,6 +425,70 @@ func c07run(toks []string) string {
 				}
 			}
 			obs = append(obs, c07mock(h, v, kind, fits, f[3], k, a))
+		case "pc": // pc:b:v:called:k:m1,m2,..  — another goroutine keeps calling `called` while this one mocks m1,m2,..
+			b, _ := strconv.Atoi(f[1])
+			vi, _ := strconv.Atoi(f[2])
+			k, _ := strconv.Atoi(f[4])
+			if vi >= len(vars) || dropped[b] || builders[b] == nil {
+				return "bad-op"
+			}
+			v := vars[vi]
+			called := f[3]
+			want := c07catch(func() string { return v.t.call(v.slot, called, 5) })
+			stop := make(chan struct{})
+			started := make(chan struct{})
+			done := make(chan string, 1)
+			go func() {
+				n, res := 0, "ok"
+				defer func() {
+					if r := recover(); r != nil {
+						res = "panic:" + c07class(r)
+					}
+					done <- res
+				}()
+				for {
+					select {
+					case <-stop:
+						return
+					default:
+					}
+					if got := v.t.call(v.slot, called, 5); got != want {
+						res = "wrong:" + got
+						return
+					}
+					if n++; n == 1 {
+						close(started)
+					}
+				}
+			}()
+			select { // the schedule is only exercised once the caller runs; a loaded machine may need a while
+			case <-started:
+			case <-time.After(5 * time.Second):
+			}
+			res := "ok"
+			for i, name := range strings.Split(f[5], ",") {
+				bb := builders[b]
+				var h *CachedInterfaceMocker
+				h = bb.Interface(v.t.ptr(v.slot))
+				if r := c07mock(h, v, "ap", true, name, k+i, 0); r != "ok" {
+					res = r
+				}
+				runtime.Gosched()
+			}
+			time.Sleep(200 * time.Microsecond)
+			close(stop)
+			if r := <-done; r != "ok" {
+				res = "concurrent-call:" + r
+			}
+			obs = append(obs, res)
+		case "as": // the test assigns the variable
+			vi, _ := strconv.Atoi(f[1])
+			id, _ := strconv.Atoi(f[2])
+			if vi >= len(vars) {
+				return "bad-op"
+			}
+			vars[vi].t.set(vars[vi].slot, id)
+			obs = append(obs, "ok")
 		case "cn": // cancel through ONE method's handle, obtained by a fresh lookup
 			b, _ := strconv.Atoi(f[1])
 			vi, _ := strconv.Atoi(f[2])
@@ -428,6 +542,9 @@ func c07run(toks []string) string {
 			v := vars[vi]
 			var rs []string
 			for mi, n := range c07methods(v.t) {
+				if v.t.sigs[n] == 9 {
+					continue
+				}
 				n, x := n, 7+mi
 				rs = append(rs, n+"="+c07catch(func() string { return v.t.call(v.slot, n, x) }))
 			}
